@@ -128,24 +128,34 @@ def r4(ctx):
     am = sorted(v for _, v in ret_assigns(P.body(T + 'apply_mask')))
     ctx.check('apply_mask', am == ['(val & (num::checked_shl(MAX=340282366920938463463374607431768211455, ((128 - len) as u32)) as Some).0)', '0'], 'apply_mask = %s' % am, sample=am)
     l = P.body(T + 'BitTree::lookup')
-    node = r'node\{Vec::index\(self\.nodes, \(next_idx as usize\)\) \| Vec::index\(self\.nodes, 0\)\}'
+    # name-free: the current node is whatever loop variable holds `nodes[0]` / `nodes[child index]` (printed as a phi `name{a | b}`), the
+    # symbol is `1 << top_nibble(<the address, shifted>)`; both are normalised away before the forms are compared
+    def norm(x):
+        x = re.sub(r'\w+\{[^{}]*Vec::index\(self\.nodes, [^{}]*\}', 'NODE', x)
+        return re.sub(r'\(1 << ipfilter::top_nibble\(\(*val( << 4\))*\)\)', 'SYM', x)
+    both = lambda fld, op: (r'((NODE.%s & SYM) %s 0)' % (fld, op), r'((SYM & NODE.%s) %s 0)' % (fld, op))
     for s, v in ret_assigns(l):
-        gs = l.guard_strings(s.bb)
+        gs = [norm(g) for g in guards_S(l, s.bb)]
         if v == '1':
-            ctx.check('lookup|true|inset', bool(gs) and re.match(r'^\(\(%s\.inset & cur\) != 0\)$' % node, gs[-1]) is not None, 'returns true under %s' % gs[-1:], s.where(), sample=gs[-1:])
+            ctx.check('lookup|true|inset', bool(gs) and gs[-1] in both('inset', '!='), 'returns true under %s' % gs[-1:], s.where(), sample=gs[-1:])
         elif v == '0':
-            ok = len(gs) >= 2 and re.match(r'^\(\(%s\.inset & cur\) == 0\)$' % node, gs[-2]) is not None and re.match(r'^\(\(%s\.outset & cur\) != 0\)$' % node, gs[-1]) is not None
+            ok = len(gs) >= 2 and gs[-2] in both('inset', '==') and gs[-1] in both('outset', '!=')
             ctx.check('lookup|false|outset-after-inset', ok, 'returns false under %s' % gs[-2:], s.where(), sample=gs[-2:])
         else:
             ctx.check('lookup|result-form', False, 'lookup returns %s' % v, s.where())
-    defs = {}
-    for i, lc in enumerate(l.locals):
-        if lc.get('name') in ('val', 'cur', 'next_idx') and l.defs().get(i):
-            defs.setdefault(lc['name'], []).extend(N(l._def_term(dd, ())) for dd in l.defs()[i])
-    ctx.check('lookup|symbol', defs.get('cur') == ['(1 << ipfilter::top_nibble(val))'], 'cur = %s' % defs.get('cur'), sample=defs.get('cur'))
-    ctx.check('lookup|shift', defs.get('val') == ['(val << 4)'], 'val = %s' % defs.get('val'), sample=defs.get('val'))
-    defs['next_idx'] = [re.sub(node, 'node', x) for x in defs.get('next_idx', [])]
-    ctx.check('lookup|child-index', defs.get('next_idx') == ['(node.child_offset + num::count_ones((!((node.inset | node.outset)) & (cur - 1))))'], 'next_idx = %s' % defs.get('next_idx'), sample=defs.get('next_idx'))
+    tn = l.calls(r'ipfilter::top_nibble$')
+    syms = sorted({S(l.call_args(s)[0]) for s in tn})
+    ctx.check('lookup|symbol', len(tn) == 1 and all(re.match(r'^\(*val( << 4\))*$', x) for x in syms), 'the symbol is the top nibble of %s' % syms, sample=syms)
+    # the address is advanced by one nibble per level: the variable top_nibble reads is reassigned `itself << 4`
+    sh = []
+    for s in tn:
+        rl = root_local(l, s.data['args'][0])
+        sh += [S(l._def_term(dd, ())) for dd in (l.defs().get(rl, []) if rl is not None else []) if dd[2] == 'assign']
+    ctx.check('lookup|shift', len(sh) == 1 and re.match(r'^\(+val( << 4\))+$', sh[0]) is not None, 'address advanced by %s' % sh, sample=sh)
+    idx = [[S(a) for a in l.call_args(s)] for s in l.calls(r'Vec::index$|Index::index$')]
+    ctx.check('lookup|root-node', any(a == ['self.nodes', '0'] for a in idx), 'the walk does not start at nodes[0]: %s' % [a[:1] for a in idx], sample=len(idx))
+    child = [norm(a[1]) for a in idx if a[0] == 'self.nodes' and a[1] != '0']
+    ctx.check('lookup|child-index', child == ['((NODE.child_offset + num::count_ones((!((NODE.inset | NODE.outset)) & (SYM - 1)))) as usize)'], 'child index = %s' % child, sample=child)
     f = P.body(T + 'BitTree::fill_node')
     dw = deref_writes(f)
     nd = r'Vec::index_mut\(self\.nodes, node_index\)'
